@@ -1,6 +1,8 @@
 (* Structural obligations on the code as it is now (regenerated gen/Gen_C15.v): model/C15_Gc.v
    was written against exactly these skeletons.  A change of a comparison, of the position of a
-   storage call, of a lock, or a new writer of the safe point keys breaks a `reflexivity` here. *)
+   storage call, of a lock (gcSafePointLock around load..save of UpdateGCSafePoint, serviceSafePointLock around
+   UpdateServiceGCSafePoint), of the service id check (checkServiceID in Save/RemoveServiceGCSafePoint), or a
+   new writer of the safe point keys breaks a `reflexivity` here. *)
 From PDV Require Import lib.Skel gen.Gen_C15.
 
 Lemma gc_worker_id_ok : gc_worker_id =
@@ -20,11 +22,11 @@ Lemma skel_LoadGCSafePoint_ok : skel_LoadGCSafePoint =
 Proof. reflexivity. Qed.
 
 Lemma skel_SaveServiceGCSafePoint_ok : skel_SaveServiceGCSafePoint =
-  [IfE "ssp.ServiceID == """"" [Ret] []; IfE "ssp.ServiceID == gcWorkerServiceSafePointID && ssp.ExpiredAt != math.MaxInt64" [Ret] []; Call "Join"; Assign "key" ":= path.Join(gcPath, ""safe_point"", ""service"", ssp.ServiceID)"; Call "Marshal"; IfE "err != nil" [Ret] []; Call "Save"; Ret].
+  [IfE "ssp.ServiceID == """"" [Ret] []; Call "checkServiceID"; IfE "err != nil" [Ret] []; IfE "ssp.ServiceID == gcWorkerServiceSafePointID && ssp.ExpiredAt != math.MaxInt64" [Ret] []; Call "Join"; Assign "key" ":= path.Join(gcPath, ""safe_point"", ""service"", ssp.ServiceID)"; Call "Marshal"; IfE "err != nil" [Ret] []; Call "Save"; Ret].
 Proof. reflexivity. Qed.
 
 Lemma skel_RemoveServiceGCSafePoint_ok : skel_RemoveServiceGCSafePoint =
-  [IfE "serviceID == gcWorkerServiceSafePointID" [Ret] []; Call "Join"; Assign "key" ":= path.Join(gcPath, ""safe_point"", ""service"", serviceID)"; Call "Remove"; Ret].
+  [IfE "serviceID == gcWorkerServiceSafePointID" [Ret] []; Call "checkServiceID"; IfE "err != nil" [Ret] []; Call "Join"; Assign "key" ":= path.Join(gcPath, ""safe_point"", ""service"", serviceID)"; Call "Remove"; Ret].
 Proof. reflexivity. Qed.
 
 Lemma skel_initServiceGCSafePointForGCWorker_ok : skel_initServiceGCSafePointForGCWorker =
@@ -35,12 +37,16 @@ Lemma skel_LoadMinServiceGCSafePoint_ok : skel_LoadMinServiceGCSafePoint =
   [Call "Join"; Call "LoadRange"; IfE "err != nil" [Ret] []; IfE "len(keys) == 0" [Call "initServiceGCSafePointForGCWorker"; Ret] []; Assign "hasGCWorker" ":= false"; Assign "min" ":= &ServiceSafePoint{SafePoint: math.MaxUint64}"; ForE [Call "Unmarshal"; IfE "err != nil" [Ret] []; IfE "ssp.ServiceID == gcWorkerServiceSafePointID" [Assign "hasGCWorker" "= true"; IfE "ssp.ExpiredAt != math.MaxInt64" [Assign "ssp.ExpiredAt" "= math.MaxInt64"; Call "SaveServiceGCSafePoint"; IfE "err != nil" [Ret] []] []] []; IfE "ssp.ExpiredAt < now.Unix()" [Call "Remove"] []; IfE "ssp.SafePoint < min.SafePoint" [Assign "min" "= ssp"] []]; IfE "min.SafePoint == math.MaxUint64" [Call "initServiceGCSafePointForGCWorker"; Ret] []; IfE "!hasGCWorker" [Call "initServiceGCSafePointForGCWorker"; Ret] []; Ret].
 Proof. reflexivity. Qed.
 
+Lemma skel_checkServiceID_ok : skel_checkServiceID =
+  [Call "Contains"; IfE "strings.Contains(serviceID, ""/"") || serviceID == ""."" || serviceID == ""..""" [Ret] []; Ret].
+Proof. reflexivity. Qed.
+
 Lemma skel_GetGCSafePoint_ok : skel_GetGCSafePoint =
   [IfE "!s.isLocalRequest(forwardedHost)" [IfE "err != nil" [Ret] []; Ret] []; Call "validateRequest"; IfE "err != nil" [Ret] []; Call "GetRaftCluster"; IfE "rc == nil" [Ret] []; Call "LoadGCSafePoint"; IfE "err != nil" [Ret] []; Ret].
 Proof. reflexivity. Qed.
 
 Lemma skel_UpdateGCSafePoint_ok : skel_UpdateGCSafePoint =
-  [IfE "!s.isLocalRequest(forwardedHost)" [IfE "err != nil" [Ret] []; Ret] []; Call "validateRequest"; IfE "err != nil" [Ret] []; Call "GetRaftCluster"; IfE "rc == nil" [Ret] []; Call "LoadGCSafePoint"; IfE "err != nil" [Ret] []; Assign "newSafePoint" ":= request.SafePoint"; IfE "newSafePoint > oldSafePoint" [Call "SaveGCSafePoint"; IfE "err != nil" [Ret] []] [IfE "newSafePoint < oldSafePoint" [Assign "newSafePoint" "= oldSafePoint"] []]; Ret].
+  [IfE "!s.isLocalRequest(forwardedHost)" [IfE "err != nil" [Ret] []; Ret] []; Call "validateRequest"; IfE "err != nil" [Ret] []; Call "GetRaftCluster"; IfE "rc == nil" [Ret] []; Lock "s.gcSafePointLock"; DeferUnlock "s.gcSafePointLock"; Call "LoadGCSafePoint"; IfE "err != nil" [Ret] []; Assign "newSafePoint" ":= request.SafePoint"; IfE "newSafePoint > oldSafePoint" [Call "SaveGCSafePoint"; IfE "err != nil" [Ret] []] [IfE "newSafePoint < oldSafePoint" [Assign "newSafePoint" "= oldSafePoint"] []]; Ret].
 Proof. reflexivity. Qed.
 
 Lemma skel_UpdateServiceGCSafePoint_ok : skel_UpdateServiceGCSafePoint =
